@@ -151,7 +151,8 @@ where
     fn write_xml(&self, writer: &mut W) -> WriterResult<()> {
         let possibly_optional_field = if self.is_vec {
             format!("Vec<{}>", self.rust_type)
-        } else if self.is_optional {
+        } else if self.is_optional || self.is_choice {
+            // only one branch of a choice is present in an instance
             format!("Option<{}>", self.rust_type)
         } else {
             self.rust_type.to_string()
